@@ -74,13 +74,13 @@ class Node:
                 for index in range(first_invalid, len(self)):
                     self.__children[index].__parent_index = index
             elif len(value) > 0:
-                for index in range(indices.start, indices.start + indices.step*len(value)):
+                for index in indices:
                     self.__children[index].__parent_index = index
 
         else:
             value = self.parse_child(value)
-            value.__parent_index = idx
             self.__children.__setitem__(idx, value)
+            value.__parent_index = idx + len(self.__children) if idx < 0 else idx
 
     def __getitem__(self: _NodeType, *args, **kwargs) ->Union[_NodeType, List[_NodeType]]:
         return self.__children.__getitem__(*args, **kwargs)
